@@ -110,8 +110,7 @@ def qualname_of(fn):
 
 
 def is_repo_fn(fn):
-    return getattr(fn, '__module__', '') is not None and \
-        (fn.__module__ or '').split('.')[0] == 'bridge_env'
+    return (getattr(fn, '__module__', '') or '').split('.')[0] == 'bridge_env'
 
 
 def assigned_names(nodes):
@@ -387,6 +386,9 @@ class Interp:
             raise EngineError('comparison of the first character of an abstract line')
         if isinstance(a, _ext.AbsLine) and isinstance(b, _ext.AbsLine):
             return mk_bool(T(a.id) == T(b.id))
+        from .dsl import OpaqueVal as _OV
+        if isinstance(a, _OV.Val) and isinstance(b, _OV.Val):
+            return a.name == b.name
         if isinstance(a, _ext.JDump) and isinstance(b, _ext.JDump):
             return self.eq(a.v, b.v)      # as JSON values (object key order is immaterial)
         if isinstance(a, _ext.JDump) or isinstance(b, _ext.JDump):
